@@ -110,3 +110,17 @@ Theorem C14_targets_agree_through_names : forall (w : world) ws r sc sc' v st,
   fst a = RVal r /\ fst b = RVal r /\ fst (snd a) = fst (snd b).
 Proof. exact targets_agree_through_names. Qed.
 Print Assumptions C14_targets_agree_through_names.
+(* calls: `mk { … }` — for a callee the CLI accepts both walks return the argument; for a callee it refuses (`"s" { … }`) the CLI raises ValueError
+   and the mapping still returns the set: the one place where the two copies of the walk differ on purpose, stated rather than left to be found *)
+Theorem C14_targets_agree_on_supported_call : forall (w : world) f t a sc v st,
+  w_cls w t = CCall -> w_argument w t = Some a -> w_cls w (w_strip w a) = CSet -> existsb (w_eqb w t) v = false ->
+  scopes_ok (wN w) (wSC w) (w_store w) (w_scopes w) t sc st -> w_supports w t = true ->
+  map_target w (S f) t sc (v, st) = target w (S f) t sc (v, st).
+Proof. exact targets_agree_on_supported_call. Qed.
+Print Assumptions C14_targets_agree_on_supported_call.
+Theorem C14_targets_differ_on_refused_callee : forall (w : world) f t a sc v st,
+  w_cls w t = CCall -> w_argument w t = Some a -> w_cls w (w_strip w a) = CSet -> existsb (w_eqb w t) v = false ->
+  scopes_ok (wN w) (wSC w) (w_store w) (w_scopes w) t sc st -> w_supports w t = false ->
+  fst (target w (S f) t sc (v, st)) = RErrV /\ fst (map_target w (S f) t sc (v, st)) = RVal (w_strip w a).
+Proof. exact targets_differ_on_refused_callee. Qed.
+Print Assumptions C14_targets_differ_on_refused_callee.
